@@ -183,12 +183,21 @@ mutual
       typeInFragment t && fieldsInFragment r
 end
 
+/-- An interface stores a value of a pointer-shaped type (pointer, map, a struct with one such field,
+an array of one such element) directly in its data word; the "real nil check" of the `…NotEmpty`
+plan functions reads that word, so such a value with a nil word is taken for a nil interface
+(known finding `C15-iface-nil-word`; like a typed nil pointer it is outside the model). -/
+def wordNil : Nat → GoVal → Bool
+  | 0, _ => false
+  | _ + 1, .nilPtr => true
+  | _ + 1, .nilMap => true
+  | n + 1, .struct [x] => wordNil n x
+  | n + 1, .arr [x] => wordNil n x
+  | _ + 1, _ => false
+
 mutual
   def valInFragment : GoVal → Bool
-    | .iface t v => typeInFragment t && valInFragment v &&
-        (match v with
-          | .nilPtr => false
-          | _ => true)
+    | .iface t v => typeInFragment t && valInFragment v && !wordNil 16 v
     | .ptr v => valInFragment v
     | .slice xs => valsInFragment xs
     | .arr xs => valsInFragment xs
